@@ -87,6 +87,7 @@ THEOREMS = [
     "OllamaVerif.Tie.C13.length_limits_match",
     "OllamaVerif.Tie.C13.accepted_bytes_safe",
     "OllamaVerif.Tie.C13.colon_only_in_hosts",
+    "OllamaVerif.Tie.C13.no_odd_strings",
 ]
 
 OV_MODEL = {"types/model/zz_verif_c13_test.go": "types_model/zz_verif_c13_test.go"}
@@ -123,7 +124,10 @@ def regenerate(ctx):
             continue
         for line in open(outdir + "/table.txt"):
             f = line.split()
-            rows[(f[0], int(f[1]), f[2])] = [int(x) for x in f[3:]]
+            if f[2] == "odd":
+                rows[(f[0], int(f[1]), "odd")] = f[3:]
+            else:
+                rows[(f[0], int(f[1]), f[2])] = [int(x) for x in f[3:]]
     if not ok:
         ctx.violation("table-driver-failed", "", "could not regenerate the isValidPart tables", no_input=True)
         return
@@ -144,13 +148,70 @@ def regenerate(ctx):
                     "2-byte relation = first × rest and position-independent) -/")
         body.append(f"def len{pk} : List (Nat × Nat × Nat × Nat × Nat) := [" + ", ".join(
             "({}, {}, {}, {}, {})".format(k, *rows[(pk, k, 'len')]) for k in range(kinds)) + "]")
+        body.append("/-- strings (as byte lists) on which the real isValidPart is NOT `first byte ∈ first ∧ later bytes ∈ rest`: probed on all "
+                    "2-byte strings, 3-byte spot checks and valid UTF-8 encodings (2/3/4 bytes) of code points per low-byte class -/")
+        body.append(f"def odd{pk} : List (Nat × List (List Nat)) := [" + ", ".join(
+            "({}, [{}])".format(k, ", ".join(lst(list(bytes.fromhex(h))) for h in rows.get((pk, k, 'odd'), [])))
+            for k in range(kinds)) + "]")
     body.append("end OllamaVerif.Generated.C13")
+    ctx._c13_rows = rows
     core.write_generated("OllamaVerif/Generated/C13_NameTable.lean", "\n".join(body) + "\n")
+
+
+def tie_witnesses(ctx):
+    """When the regenerated tables do not say what the model says, turn the difference into concrete strings:
+    every table fact is re-asked of the MODEL (oracle `vpart`), and every differing string — plus the `odd` strings the
+    table driver found — becomes a part-level case and name-level cases that the drivers then run through the REAL
+    functions and the L2 predicates (part-unsafe / part-cross-disagree / cross-names-to-model / cross-model-to-names /
+    manifest-path-not-reparseable).  Returns the path of the witness file, or None."""
+    rows = getattr(ctx, "_c13_rows", None)
+    if not rows or not os.path.exists(ctx.oracle_bin()):
+        return None
+    probes = []   # (pkg, kind, bytes, real answer)
+    for pk, kinds in (("M", 5), ("N", 4)):
+        for k in range(kinds):
+            first, rest = set(rows[(pk, k, "first")]), set(rows[(pk, k, "rest")])
+            for b in range(256):
+                probes.append((pk, k, bytes([b]), b in first))
+                probes.append((pk, k, bytes([97, b]), b in rest))
+            lo, hi = rows[(pk, k, "len")][0], rows[(pk, k, "len")][1]
+            for n in {max(lo - 1, 0), lo, hi, hi + 1, 1, 80, 81, 350, 351}:
+                probes.append((pk, k, b"a" * n, lo <= n <= hi))
+            for h in rows.get((pk, k, "odd"), []):
+                probes.append((pk, k, bytes.fromhex(h), None))
+    ops = os.path.join(ctx.tmp, "tie-ops.txt")
+    res = os.path.join(ctx.tmp, "tie-model.txt")
+    with open(ops, "w") as f:
+        for pk, k, bs, _ in probes:
+            f.write(f"vpart {pk} {k} {bs.hex() or '-'}\n")
+    ctx.oracle(ops, res)
+    answers = [l.strip() for l in open(res)]
+    lines, seen = [], set()
+    for (pk, k, bs, real), model in zip(probes, answers):
+        if real is not None and ("1" if real else "0") == model:
+            continue
+        if (pk, k, bs) in seen or len(seen) >= 24:
+            continue
+        seen.add((pk, k, bs))
+        lines.append(f"vpart {pk} {k} {bs.hex() or '-'}")
+        if k < 4 and bs:
+            parts = [b"h", b"n", b"m", b"t"]
+            parts[k] = bs
+            name = parts[0] + b"/" + parts[1] + b"/" + parts[2] + b":" + parts[3]
+            lines += [f"nname {name.hex()}", f"mname {name.hex()}", f"n2p {name.hex()}"]
+    if not lines:
+        return None
+    path = os.path.join(ctx.tmp, "tie-witnesses.txt")
+    with open(path, "w") as f:
+        f.write("\n".join(lines) + "\n")
+    ctx.coverage["tie_witness_lines"] = len(lines)
+    return path
 
 
 def run(ctx):
     regenerate(ctx)
     ctx.lean_check(MODULES, THEOREMS)
+    witness = tie_witnesses(ctx)
     corpus = os.path.join(core.ROOT, "corpus", "C13")
     sizes = {
         #          quick: (VERIF_N, exhaustive len)   thorough
@@ -169,6 +230,8 @@ def run(ctx):
         n, exh = sizes[label][1 if ctx.thorough else 0]
         env = {"VERIF_N": n, "VERIF_EXH": exh, "VERIF_HIST": 4000 if ctx.thorough else 300, "VERIF_EXH_PATH": 3 if not ctx.thorough else 4,
                "VERIF_CORPUS": os.path.join(corpus, label + ".txt")}
+        if witness:
+            env["VERIF_WITNESS"] = witness
         if ctx.replay:
             toks = open(ctx.replay_line_file()).read().split()
             opname = toks[0] if toks else ""
